@@ -9,7 +9,6 @@ HERE = os.path.dirname(os.path.dirname(os.path.abspath(__file__)))
 NA = {
     "C01": "numerical equality of four simulators' floating-point results over all gate sequences; no structural clause is both necessary and not already decided under C14/C02 (hbar), C13 (cutoff>=1), C16 (mode order)",
     "C10": "correctness of hand-written gradient formulas is numerical; the only structural facts (arity/name tables) are enforced by TF/JAX at first use in the existing tests",
-    "C17": "numerical agreement of two fermionic representations; parity/number conservation are properties of computed matrices",
 }
 
 CHECKS = {
@@ -83,6 +82,11 @@ CHECKS = {
         text="Decides one necessary clause: in every simulation step the mode tuple reaches index construction with its order intact; no sorted/np.sort/np.unique/set-based fullness test decides the ordering of outcomes or reduced states. Permutation covariance of the numerical index lists is not decided.",
         note="Trusted: resolver; set() used only for emptiness/intersection/membership is order-irrelevant and accepted.",
         ref="DESIGN 3/C16"),
+    "C17": dict(
+        cat="other", technique="sibling agreement of the fermionic Fock gate steps on the adjacency test (dominance on the CFG, diagonal-write form) + matrix-word derivation of the Gaussian passive update + congruence-form and exclusion-test dominance rules",
+        text="Decides four structural necessary clauses of the agreement of the two fermionic simulators: (a) every gate step of the fermionic Fock simulator (which stores amplitudes without Jordan-Wigner strings) refuses non-consecutive modes before it writes the state vector or writes it only diagonally; (b) the updates of D = <a^dagger a^T> and E = <a^dagger a^dagger^T> in the Gaussian passive step equal conj(U) D U^T and conj(U) E U^dagger, derived from a' = U a in a non-commutative matrix-word algebra, with left factors on row selections and right factors on column selections; (c) the Majorana covariance matrix is updated by a congruence K cov K^T with one K; (d) both state_vector steps test occupation numbers for 0/1 on every path that stores them. Equality of the covariance matrices and probabilities of the two simulators, parity and number conservation of computed states are numerical and NOT decided.",
+        note="Trusted: python ast, CFG construction, the matrix-word algebra of pqstatic/moments.py, the definitions D = <a^dagger a^T>, E = <a^dagger a^dagger^T> from the step's docstring. Clause-level claim only.",
+        ref="DESIGN 3/C17"),
     "C18": dict(
         cat="other", technique="table agreement between constructor signatures, params dicts, Blackbird map, Config eq/as_code field sets, pq namespace bindings; lossless-literal deny rule; coefficient-use rule in preparation algebra",
         text="Decides that positional and keyword round trips are well-formed for every Instruction subclass (params keys = constructor parameters, in order for Blackbird classes), Config's constructor/eq/as_code field sets agree, every emitted pq.<Name> resolves to the emitting class, no ndarray reaches generated source through a lossy formatter, and preparation algebra reads every operand's coefficient. What blackbird does to floats and the execution of generated code are outside.",
@@ -119,7 +123,7 @@ ADDED = {
 }
 
 # properties whose check is built AND clean on the current tree (exit 0); others stay under not_applicable until then
-READY = ["C02", "C03", "C04", "C05", "C06", "C07", "C08", "C09", "C11", "C12", "C13", "C14", "C15", "C16", "C18", "C19", "C20"]
+READY = ["C02", "C03", "C04", "C05", "C06", "C07", "C08", "C09", "C11", "C12", "C13", "C14", "C15", "C16", "C17", "C18", "C19", "C20"]
 
 PENDING_REASON = "static check for this property is not built yet in this tree (planned, see DESIGN.md section 3)"
 
